@@ -15,6 +15,7 @@ A program is a list of commands (JSON-able lists):
   ["ops", c]                         pure listing (c.operations only; answers the count)
   ["copyobs", c]                     copy the structure and list the copy (observer)
   ["apply", c] ["flatten", c] ["copy", c]               mutators (copy → new circuit handle)
+  ["new", rep, [h, T]]               a circuit constructed with an explicit relation T to the existing operation h
   ["adopt", h]                       the nested copy a `sub` returned (handle h) becomes a circuit index of its own: the caller
                                      keeps the handle and adds to it later (forced streams only)
 """
@@ -78,6 +79,10 @@ def to_lines(prog, ambient):
             lines.append('heap gdur %d %d %d %d' % tuple(cmd[1:5]))
         elif k == 'gdur-leave':
             lines.append('heap gdur %d %d %d %d' % tuple(ambient))
+        elif k == 'new' and len(cmd) > 2 and cmd[2] is not None:
+            lines.append(f'heap new {cmd[1]} {cmd[2][0]}:{cmd[2][1]}')
+        elif k == 'new':
+            lines.append(f'heap new {cmd[1]}')
         else:
             lines.append('heap ' + ' '.join(str(x) for x in cmd))
     return lines
@@ -397,7 +402,13 @@ class ImplRun:
         a = self.a
         k = cmd[0]
         if k == 'new':
-            self.circs.append(a.DeclarativeCircuit(repetition_strategy=self._rep(cmd[1])))
+            if len(cmd) > 2 and cmd[2] is not None:
+                # a circuit constructed with an explicit relation to an existing operation
+                self.implicit_only = False
+                self.circs.append(a.DeclarativeCircuit(relation=a.RelationLink(self.handles[cmd[2][0]], a.RT[cmd[2][1]]),
+                                                       repetition_strategy=self._rep(cmd[1])))
+            else:
+                self.circs.append(a.DeclarativeCircuit(repetition_strategy=self._rep(cmd[1])))
             self.shadow.append({'rep': cmd[1], 'items': []})
         elif k == 'gdur':
             if self.in_override:
@@ -548,6 +559,7 @@ class GenConfig:
         self.max_nest = 4
         self.max_size = 60              # bound on the number of leaves of a circuit after unrolling
         self.static_durations = False   # duration/count settings only at the start of the program
+        self.p_newrel = 0.0             # fraction of new circuits constructed with an explicit relation to an existing operation
         self.p_huge = 0.0               # fraction of programs in which fixed durations may be ~10^5 (times where a relative
                                         # floating-point tolerance exceeds the 1/8 grid: seeded change C06-m6)
         for k, v in kw.items():
@@ -653,7 +665,10 @@ def gen_program(rng, cfg: GenConfig):
         if kind == 'new' and nc < cfg.max_circs:
             rep = rng.choice(cfg.reps)
             spec = f'r{rng.randrange(2)}' if rng.random() < cfg.p_regrep else f'f{rep}'
-            prog.append(['new', spec])
+            if cfg.p_newrel > 0 and nh and rng.random() < cfg.p_newrel:
+                prog.append(['new', spec, [rng.randrange(nh), rng.choice(['FB', 'JS', 'JE'])]])
+            else:
+                prog.append(['new', spec])
             handles.append([])
             nest_depth.append(0)
             size.append(0)
